@@ -1,0 +1,28 @@
+//go:build verif
+
+// Lemma functions for /verif/cmd/govc: ordinary Go code, compiled only under the
+// build tag "verif", never called. Each is verified against the contract of the same
+// name in zz_verif_contracts.go; calls inside are checked against the callees' contracts.
+
+package dvid
+
+// verifLemmaZYXRoundTrip: decoding an encoded block coordinate key gives the coordinate back.
+func verifLemmaZYXRoundTrip(p Point3d) (q Point3d, err error) {
+	b := p.ToZYXBytes()
+	err = q.FromZYXBytes(b)
+	return
+}
+
+// verifLemmaZYXOrder: byte order of encoded keys is (z, y, x) order of signed coordinates.
+func verifLemmaZYXOrder(p, q Point3d) (a, b []byte) {
+	a = p.ToZYXBytes()
+	b = q.ToZYXBytes()
+	return
+}
+
+// verifLemmaRLERoundTrip: binary (de)serialisation of a run preserves it.
+func verifLemmaRLERoundTrip(in RLE) (out RLE, err error) {
+	b, _ := in.MarshalBinary()
+	err = out.UnmarshalBinary(b)
+	return
+}
